@@ -7,7 +7,8 @@ entity references and fenced blocks (the HTML stash keeps counting without `rese
 run(driver, rng, n) -> {'cases', 'distinct', 'disagreements', 'samples', 'dist'}
 
 Compared: EVERY output of the history, and the state after it (`md.references`, the footnote table, `abbrs`,
-`htmlStash.rawHtmlBlocks`, `used_refs`, `found_refs`) when the model still tracks it.  The model answers `D` (outside the
+`htmlStash.rawHtmlBlocks`, `used_refs`, `found_refs`, and the side outputs `md.toc`, `md.toc_tokens` — level, id, name of
+the flattened tokens) when the model still tracks it.  The model answers `D` (outside the
 modelled domain) for the documents `convertX` does not model and for every conversion after a conversion that did not
 return normally until the next `reset()`; such answers are counted, they are not disagreements.  `E` must be a raised
 ValueError/OverflowError.  A case is a history; `distinct` counts the histories in which a conversion WITHOUT a preceding
@@ -55,7 +56,7 @@ def uses_part(rng):
     if k < 6:
         return ''.join('%s[^%s]%s' % (rng.choice(['', 'w', '*e*', _w(rng, 1, 2)]), rng.choice(FNIDS + ['zz']), rng.choice(['', ' ', '\n'])) for _ in range(rng.randint(1, 3)))
     if k < 8:
-        return rng.choice(['', '# ', '- ', '> ', '1. ']) + _w(rng, 1, 6)
+        return rng.choice(['', '# ', '## ', '# ', '- ', '> ', '1. ']) + _w(rng, 1, 6) + rng.choice(['', '', '', ' {#i1}', ' {: data-toc-label="L" }'])
     if k == 8:
         return rng.choice(['a &amp; b', '&lt;x&gt;', '&copy; &#169; &#x41;', 'AT&T', '&amp;amp;', '`&amp;`', '    &amp;', '[TOC]', '# H\n\n[TOC]', '///Footnotes Go Here///'])
     return rng.choice(['```\ncode HTML\n```', '~~~ py\nx\n~~~', '```\na\n```\n\n```\nb\n```', '| a | b |\n|---|---|\n| HTML | [t][a] |', '!!! note\n    HTML[^1]', 'T\n:   d [a]',
@@ -74,7 +75,7 @@ def gen_doc(rng):
     if r < 0.6: s = split_doc(rng)
     elif r < 0.68: s = PX.fn_doc(rng)
     elif r < 0.74: s = PX.abbr_doc(rng)
-    elif r < 0.78: s = PX.toc_doc(rng)
+    elif r < 0.8: s = PX.toc_doc(rng)
     elif r < 0.82: s = rng.choice(['', ' ', '\n', ' \n\t'])
     elif r < 0.84: s = rng.choice(['&#1114112;', 'x &#x110000; y', '&#99999999999;'])    # unescape raises / not: whatever happens
     elif r < 0.86: s = rng.choice(PX.FAMILIES)
@@ -98,24 +99,37 @@ def dec_rows(f):
 
 def real_state(md):
     st = {'refs': dict(md.references), 'html': list(md.htmlStash.rawHtmlBlocks), 'fn': None, 'used': None, 'found': None, 'abbrs': None,
-          'counter': md.htmlStash.html_counter, 'pstate': list(md.parser.state)}
+          'counter': md.htmlStash.html_counter, 'pstate': list(md.parser.state), 'toc': None, 'toks': None}
     for e in md.registeredExtensions:
         n = type(e).__name__
         if n == 'FootnoteExtension':
             st['fn'] = list(e.footnotes.items()); st['used'] = set(e.used_refs); st['found'] = dict(e.found_refs)
         elif n == 'AbbrExtension':
             st['abbrs'] = list(e.abbrs.items())
+        elif n == 'TocExtension':
+            st['toc'] = md.toc; st['toks'] = flat_tokens(md.toc_tokens)
     return st
+
+
+def flat_tokens(toks):
+    out = []
+    for t in toks:
+        out.append((t['level'], t['id'], t['name']))
+        out.extend(flat_tokens(t['children']))
+    return out
 
 
 def model_state(f, real):
     """decode `V…` into the shape of `real_state` (tables of extensions that are not enabled: as the real ones)"""
-    refs, fns, abbrs, html, used, found = f[1:].split('#')
+    refs, fns, abbrs, html, used, found, toc, toks = f[1:].split('#')
     d = {}
     for i, u, t in dec_rows(refs):
         d[proto.dec_str(i)] = (proto.dec_str(u), proto.dec_opt(t))
     st = {'refs': d, 'html': proto.dec_list(html), 'counter': len(proto.dec_list(html)), 'pstate': [],
-          'fn': None, 'used': None, 'found': None, 'abbrs': None}
+          'fn': None, 'used': None, 'found': None, 'abbrs': None, 'toc': None, 'toks': None}
+    if real['toc'] is not None:
+        st['toc'] = proto.dec_str(toc)
+        st['toks'] = [(int(l), proto.dec_str(i), proto.dec_str(n)) for l, i, n in dec_rows(toks)]
     if real['fn'] is not None:
         st['fn'] = [(proto.dec_str(k), proto.dec_str(v)) for k, v in dec_rows(fns)]
         st['used'] = set(proto.dec_list(used))
@@ -146,7 +160,7 @@ def run(driver, rng, n, supported=None):
     dis = []
     dist = {'histories': 0, 'conversions': 0, 'resets': 0, 'ok': 0, 'err': 0, 'oof': 0, 'ood': 0, 'ood:after-failure': 0, 'recursion_skip': 0,
             'skip:non-ascii-class': 0, 'state_compared': 0, 'state_untracked': 0, 'persistence_visible': 0, 'conv_without_reset': 0,
-            'leak:refs': 0, 'leak:footnotes': 0, 'leak:abbr': 0, 'leak:stash': 0, 'leak:fnref': 0}
+            'toc_nonempty': 0, 'leak:refs': 0, 'leak:footnotes': 0, 'leak:abbr': 0, 'leak:stash': 0, 'leak:fnref': 0}
     distinct = 0
     fresh_cache = {}
     for (evs, tab, fmt, fl), a in zip(cases, ans):
@@ -208,6 +222,7 @@ def run(driver, rng, n, supported=None):
             continue
         rs = real_state(md); ms = model_state(state_f, rs)
         dist['state_compared'] += 1
+        if rs['toks']: dist['toc_nonempty'] += 1
         if len(rs['html']) > 0 and any(x is None for x in evs[1:]) is False and len([x for x in evs if x]) > 1: dist['leak:stash'] += 1
         if rs != ms:
             dis.append({'op': 'instx.run', 'input': {'history': evs, 'tab': tab, 'fmt': fmt, 'flags': fl}, 'model': 'state ' + repr(ms), 'impl': 'state ' + repr(rs)})
